@@ -1264,6 +1264,100 @@ def check_C15(tier, seed):
 
 
 # ---------------------------------------------------------------------------
+# C17: a retained session
+# ---------------------------------------------------------------------------
+def check_C17(tier, seed):
+    o = Outcome("C17", tier, seed, "model_checking")
+    o.assumptions = [
+        "the session law: line i of a session on one retained (Compiler, VM) pair behaves like the LAST line of the single program made of everything earlier lines completed -- decided by the reference semantics NlSem on the concatenated program",
+        "functions do not survive the line that defines them (the repository's own ignored test documents that); generated sessions use a function only inside its defining line",
+        "a line cut short after k instructions: which assignments completed is not observable directly; spec/NlSession.tla keeps the set of possible persistent states and later lines narrow it",
+    ]
+    # all sessions of up to three lines over the 12-line alphabet
+    wd = core.workdir("C17_alphabet")
+    files = gen_files(wd, "gen-session-alphabet", [], core.NCPU, "al")
+    sem_files_leg(o, "alphabet-sessions", files, wd)
+    # random sessions of up to 12 lines with failing lines of every class
+    wd2 = core.workdir("C17_random")
+    n = size(tier, 640, 16000)
+    shards = core.NCPU
+
+    def gen(i):
+        f = os.path.join(wd2, f"s{i}.ndjson")
+        core.run_nlh(["gen-session", "--seed", seed * 19 + i, "--n", n // shards, "--first-id", i * 1000000 + 1, "--out", f])
+        return f
+    sfiles = core.parallel(gen, list(range(shards)))
+    sem_files_leg(o, "random-sessions", sfiles, wd2)
+    # sensitivity of the session legs
+    recs = [r for r in core.read_ndjson(sfiles[0]) if r["obs"]["class"] in ("Value", "Err")][:80]
+    rng = random.Random(seed)
+    bad = [corrupt_obs(r, rng) for r in rng.sample(recs, min(10, len(recs)))]
+    bf = os.path.join(wd2, "corrupt.ndjson")
+    core.write_ndjson(bf, bad)
+    rr = core.tlc_or_die("TV_Sem.tla", "TV_Sem.cfg", env={"RECS": bf}, workdir_=wd2)
+    acc = [v for v in rr.verdicts if v["class"] == "agree" and v["rule"] != "U1"]
+    if acc:
+        raise ToolError(f"C17: sensitivity self-test failed: {len(acc)} corrupted line observations accepted")
+    o.legs[-1]["sensitivity_tried"] = len(bad)
+    o.legs[-1]["sensitivity_rejected"] = len(bad) - len(acc)
+    # lines cut short after k instructions, for every k (NlSession)
+    t0 = time.time()
+    wd3 = core.workdir("C17_abort")
+
+    def gen3(i):
+        f = os.path.join(wd3, f"a{i}.ndjson")
+        core.run_nlh(["gen-session-abort", "--seed", seed * 23 + i, "--n", size(tier, 4, 60), "--first-id", i * 1000000 + 1, "--out", f])
+        return f
+    afiles = core.parallel(gen3, list(range(8)))
+    results = run_tv_shards(afiles, "NlSession.tla", "NlSession.cfg", wd3)
+    counts = {}
+    n3 = 0
+    good = []
+    for f, r in zip(afiles, results):
+        if r.violated:
+            raise ToolError(f"NlSession internal invariant {r.violated} violated")
+        o.add_tlc(r)
+        recs3 = {x["id"]: x for x in core.read_ndjson(f)}
+        n3 += len(recs3)
+        for v in r.verdicts:
+            key = v["class"] + ":" + v["rule"]
+            counts[key] = counts.get(key, 0) + 1
+            o.traces += 1
+            rec = recs3[v["id"]]
+            if v["class"] == "mismatch":
+                o.violation({"leg": "abort-every-k", "rule": "session:" + v["rule"], "k": rec["k"],
+                             "text": " | ".join(t["text"] for t in rec["texts"])[:300]},
+                            {"lines": rec["texts"], "abort_after": rec["k"], "observed": rec["obs"], "viol": v["viol"]})
+            elif len(good) < 20:
+                good.append(rec)
+    if good:
+        o.samples.append({"leg": "abort-every-k", "lines": [t["text"] for t in good[0]["texts"]], "abort_after": good[0]["k"]})
+    bad3 = []
+    for r_ in good[:8]:
+        c = copy.deepcopy(r_)
+        # the state shown after the cut-short line is one no prefix of the assignments can produce
+        for j, l in enumerate(c["lines"]):
+            if l["k"] == "show":
+                c["obs"][j]["val"] = [x + 7 for x in c["obs"][j]["val"]]
+                break
+        bad3.append(c)
+    bf3 = os.path.join(wd3, "corrupt.ndjson")
+    core.write_ndjson(bf3, bad3)
+    rr3 = core.tlc_or_die("NlSession.tla", "NlSession.cfg", env={"RECS": bf3}, workdir_=wd3)
+    rej3 = sum(1 for v in rr3.verdicts if v["class"] == "mismatch")
+    if rej3 != len(bad3):
+        raise ToolError(f"C17 abort leg: sensitivity self-test failed ({rej3}/{len(bad3)})")
+    o.legs.append({"leg": "abort-every-k", "sessions": n3, "verdicts": counts, "sensitivity_tried": len(bad3),
+                   "sensitivity_rejected": rej3, "wall_s": round(time.time() - t0, 1)})
+    o.extra["exhaustive"] = True
+    o.extra["rule"] = ("all 1 884 sessions of up to three lines over a 12-line alphabet (declarations, assignments, expressions, output, a loop, "
+                       "re-declaration, a line that does not parse, one that does not compile, one that fails at run time after an assignment); "
+                       "random sessions of 2-12 lines with failing lines of every class at every statement position; sessions whose increment line "
+                       "is cut short after k instructions for every k")
+    return o.finish()
+
+
+# ---------------------------------------------------------------------------
 # C06: operators, exact over the whole range
 # ---------------------------------------------------------------------------
 def corrupt_big(rec, k):
@@ -1369,6 +1463,7 @@ CHECKS = {
     "C13": check_C13,
     "C14": check_C14,
     "C15": check_C15,
+    "C17": check_C17,
     "C10": check_C10,
     "C02": check_C02,
     "C03": check_C03,
